@@ -147,7 +147,11 @@ func RoundTripWith(v interface{}, typMap map[string]reflect.Type, nameMap map[st
 			case 2:
 				sharedEnc.Encode("primer")
 			case 3:
-				sharedEnc.Encode(zoo.HI32{V: 7})
+				if (rtCount/12)%2 == 0 {
+					sharedEnc.Encode(struct{ A int }{7}) // a struct type without a name
+				} else {
+					sharedEnc.Encode(zoo.HI32{V: 7})
+				}
 			}
 			out, err = sharedEnc.Encode(v)
 			return
